@@ -7,6 +7,8 @@
 //! Every case runs under `catch_unwind`; a panic is reported as the answer `PANIC <msg>`.
 
 mod fam;
+mod sv;
+mod sv_gen;
 mod rng;
 mod tables;
 mod util;
